@@ -634,7 +634,7 @@ fn strs_n(r: &mut Rng, n: usize) -> Val {
 /// right-typed value for a tag with about `n` items
 fn right(r: &mut Rng, typ: u32, n: usize) -> Val {
     match typ {
-        3 => Val::Int16((0..n).map(|_| [0o100644u16, 0o040755, 0o120777, 0o010644, 0o060660, 0o140755, 0o020620, r.next() as u16][r.usize(8)]).collect()),
+        3 => Val::Int16((0..n).map(|_| [0o100644u16, 0o040755, 0o120777, 0o010644, 0o060660, 0o140755, 0o020620, 0o104755, 0o102755, 0o106711, 0o041777, r.next() as u16][r.usize(12)]).collect()),
         4 => Val::Int32((0..n).map(|_| [0u32, 1, 8, r.next() as u32][r.usize(4)]).collect()),
         5 => Val::Int64((0..n).map(|_| [0u64, 1, 1 << 33, r.next()][r.usize(4)]).collect()),
         6 => Val::Str(rstr(r)),
